@@ -76,7 +76,7 @@ def main(argv):
         for name, verdict, info in results:
             good = verdict in ("CAUGHT", "SILENT")
             if not good: bad += 1
-            print("%-12s %s %s" % (verdict, name, "" if good else ("  <- " + info)))
+            print("%-12s %s %s" % (verdict, name, "" if good and not os.environ.get("SELFTEST_KEYS") else ("  <- " + info)))
         print("selftest: %d cases, %d not as expected" % (len(results), bad))
         return 1 if bad else 0
     finally:
